@@ -13,6 +13,10 @@
 (*          then up to MaxMut mutations of the derivations of at most      *)
 (*          MutTok tokens (Mutate, CRLF)                                   *)
 (*   frag   the documents of the recursion model (FragDocs.tla)            *)
+(*   frag3  the three-fragment documents (FragDocs!Docs3)                   *)
+(*   dupkey one response key selected twice, by every pair of fields of    *)
+(*          Query and of A with a selection set that fits (lists of        *)
+(*          different lengths, objects against lists and leaves, nulls)    *)
 (*   vars   (declared variable type) x (default) x (place of use); the     *)
 (*          variable maps range over the JSON-shaped values of depth <= 2  *)
 (*   refl   fields with arguments x every state of every argument          *)
@@ -94,6 +98,20 @@ ReflCases ==
   {[fam |-> "refl", ph |-> "case", lang |-> "exe", form |-> ReflDoc(af, sts, ex), sep |-> "sp", nm |-> 0] :
       <<af, sts>> \in UNION {{<<a, s>> : s \in [1..Len(a[3]) -> ArgStates]} : a \in ArgFields}, ex \in BOOLEAN}
 
+\* ---------------------------------------------------------------- family dupkey
+QFields == { <<"title">>, <<"bad">>, <<"grid">>, <<"a", "{", "n", "}">>, <<"nul", "{", "n", "}">>, <<"items", "{", "n", "}">>,
+             <<"items", "{", "kids", "{", "n", "}", "}">>, <<"named", "{", "name", "}">>, <<"any", "{", "__typename", "}">>,
+             <<"one", "{", "name", "}">>, <<"matrix", "{", "n", "}">>, <<"matrix", "{", "name", "n", "}">> }
+AFields == { <<"name">>, <<"n">>, <<"flags">>, <<"wrong">>, <<"boom">>, <<"kids", "{", "n", "}">>, <<"self", "{", "n", "}">>,
+             <<"self", "{", "kids", "{", "name", "}", "}">>, <<"peer", "{", "name", "}">> }
+DupDoc(pre, f1, f2, post) == pre \o <<"x", ":">> \o f1 \o <<"x", ":">> \o f2 \o post
+DupCases ==
+  {[fam |-> "dupkey", ph |-> "case", lang |-> "exe", form |-> DupDoc(<<"{">>, f1, f2, <<"}">>), sep |-> "sp", nm |-> 0] : f1 \in QFields, f2 \in QFields}
+  \cup {[fam |-> "dupkey", ph |-> "case", lang |-> "exe", form |-> DupDoc(<<"{", top, "{">>, f1, f2, <<"}", "}">>), sep |-> "sp", nm |-> 0] :
+          top \in {"a", "items"}, f1 \in AFields, f2 \in AFields}
+  \cup {[fam |-> "dupkey", ph |-> "case", lang |-> "exe", sep |-> "sp", nm |-> 0,
+          form |-> <<"{", "...", "F">> \o <<"x", ":">> \o f1 \o <<"}", "fragment", "F", "on", "Query", "{", "x", ":">> \o f2 \o <<"}">>] : f1 \in QFields, f2 \in QFields}
+
 \* ---------------------------------------------------------------- the machine
 MCInit == cs \in {[fam |-> f, ph |-> "fam"] : f \in Fams}
 
@@ -101,6 +119,8 @@ PickLang == /\ cs.ph = "fam"
             /\ \/ cs.fam = "all" /\ cs' \in {[fam |-> "all", ph |-> "grow", lang |-> l, form |-> <<>>, sep |-> "", nm |-> 0] : l \in Langs}
                \/ cs.fam = "deriv" /\ cs' \in {[fam |-> "deriv", ph |-> "derive", lang |-> l, form |-> <<Start>>, sep |-> "", nm |-> 0] : l \in Langs}
                \/ cs.fam = "frag" /\ cs' \in {[fam |-> "frag", ph |-> "case", lang |-> "exe", form |-> RenderDoc(d), doc |-> d, sep |-> "sp", nm |-> 0] : d \in Docs(Rich)}
+               \/ cs.fam = "frag3" /\ cs' \in {[fam |-> "frag3", ph |-> "case", lang |-> "exe", form |-> RenderDoc(d), doc |-> d, sep |-> "sp", nm |-> 0] : d \in Docs3}
+               \/ cs.fam = "dupkey" /\ cs' \in DupCases
                \/ cs.fam = "vars" /\ cs' \in VarCases
                \/ cs.fam = "refl" /\ cs' \in ReflCases
 
@@ -127,7 +147,7 @@ MCSpec == MCInit /\ [][MCNext]_mcvars
 IsVector == cs.ph \in {"grow", "mut", "case"} \/ (cs.ph = "derive" /\ Complete(cs.lang, cs.form))
 
 AllowOf(dv) ==
-  IF cs.fam = "frag"
+  IF cs.fam \in {"frag", "frag3"}
   THEN {d \in Allowed(dv, cs.lang, cs.form) : d = "FragCycleUnbounded" => Diverges(cs.doc)}
   ELSE Allowed(dv, cs.lang, cs.form)
 
@@ -157,5 +177,5 @@ Bal(t, stk) ==
 \* (the value language may carry a lone "{" inside a string)
 DerivedBalanced == (cs.ph = "derive" /\ Complete(cs.lang, cs.form) /\ cs.lang # "val") => Bal(cs.form, <<>>)
 TokensKnown == (IsVector /\ cs.fam \in {"all", "deriv"}) => \A i \in 1..Len(cs.form) : cs.form[i] \in Alpha(cs.lang)
-FragAnalysisSound == (cs.ph = "case" /\ cs.fam = "frag") => (Diverges(cs.doc) => HasSpreadCycle(cs.doc))
+FragAnalysisSound == (cs.ph = "case" /\ cs.fam \in {"frag", "frag3"}) => (Diverges(cs.doc) => HasSpreadCycle(cs.doc))
 =============================================================================
